@@ -4,7 +4,45 @@ CARD = 'cardutil/card.py'
 
 MCI = 'cardutil/mciipm.py'
 
+VBSMODS = ['contracts.mciipm_block', 'contracts.mciipm_vbs']
+
 PROPS = {
+    'C03': {
+        'modules': VBSMODS,
+        'canaries': [
+            (MCI, 'record_length_raw = struct.pack(">I", record_length)', 'record_length_raw = struct.pack(">I", record_length + 1)', "writer prefix off by one"),
+            (MCI, "if len(record_length_raw) != 4:", "if len(record_length_raw) < 3:", "reader accepts a short prefix"),
+            (MCI, 'self.out_file.write(struct.pack(">I", 0))\n        self.out_file.seek(0)', 'self.out_file.seek(0)', "close writes no terminator"),
+            (MCI, "return record  # get the full record", "return record[1:]  # get the full record", "reader drops first byte"),
+        ],
+        'assumptions': ["any NUMBER of records: the per-record step lemmas (writer appends be32(len)++record; reader at that offset returns it and moves past it; reader stops at the terminator) compose by induction over the record list - the induction itself is the standard argument, mechanised only for two-record lists in the convenience-function unit",
+                        "struct.pack/unpack('>I') model: big-endian base-256 digits, struct.error outside 0..2**32-1 / wrong buffer size"],
+    },
+    'C09': {
+        'modules': VBSMODS,
+        'canaries': [
+            (MCI, "if len(record) != record_length:", "if len(record) > record_length:", "reader delivers a partial record"),
+            (MCI, "if len(record_length_raw) != 4:", "if not record_length_raw:", "short prefix reaches struct.unpack"),
+        ],
+        'assumptions': ["a truncated blocked file unblocks to a prefix of the full payload stream (PAYLOAD-truncation lemma, closed form) and Unblock1014.read refines reading that stream; message-level decoding of a delivered record is C07's contract on loads"],
+    },
+    'C10': {
+        'modules': VBSMODS,
+        'canaries': [
+            (MCI, "record_number=self.record_number - 1,", "record_number=self.record_number,", "message-level fault reported as k+1"),
+            (MCI, "binary_context_data=record_length_raw + record)", "binary_context_data=record)", "framing error context drops the prefix"),
+            ('cardutil/__init__.py', "if kwargs.get('record_number'):", "if kwargs.get('record_no'):", "CardutilError ignores record_number"),
+        ],
+        'assumptions': ["iso8583.loads is replaced by its contract (returns a dict or raises Iso8583DataError - that is C07) when IpmReader.__next__ is verified"],
+    },
+    'C11': {
+        'modules': VBSMODS,
+        'canaries': [
+            (MCI, "        if self._finalised:\n            return\n", "", "close no longer idempotent"),
+            (MCI, "    def __exit__(self, exc_type, exc_val, exc_tb) -> None:\n        self.close()", "    def __exit__(self, exc_type, exc_val, exc_tb) -> None:\n        pass", "context-manager exit does not finalise"),
+        ],
+        'assumptions': ["histories write* (close|exit)+ of any length: first finalisation proved from every writer state, every further finalisation proved to change nothing from the state the first one leaves (fixed point), hence by induction"],
+    },
     'C04': {
         'modules': ['contracts.mciipm_block'],
         'canaries': [
